@@ -92,6 +92,7 @@ class SimConnector(BaseConnector):
     def _makeTransport(self):
         a = _Attempt(self.net, self, self.host, self.port)
         self.net.attempts.append(a)
+        self.net.dial_log.append((self.host, self.port))
         return a
 
     def getDestination(self):
@@ -381,6 +382,7 @@ class Net:
         self.window = 1 << 30       # max bytes in flight per direction
         self.autoflush = True
         self.mode_for_port = {}     # port -> "message" for websocket stubs
+        self.dial_log = []          # every connectTCP (host, port)
 
     def alloc_port(self):
         self.next_port += 1
